@@ -775,12 +775,16 @@ ExtAgreesWithFinal ==
   External => \A v \in DOMAIN ext :
       (IsStaging(ext[v]) /\ FinalP(v) \in DOMAIN obj /\ ext[v] \in DOMAIN obj) => obj[FinalP(v)] = obj[ext[v]]
 
-\* C10: a reader whose open / checkout succeeded leaves the version finalised:
-\*      final manifest present and the external store pointing at it
+\* C10: a reader whose open / checkout succeeded leaves the version at the standard manifest path with
+\*      the committed content, and the external store either points at that path or still at the staging
+\*      manifest with the very same content (somebody else is in the middle of finalising it; e.g. a
+\*      checkout that found the final manifest by HEAD while the writer had copied but not yet flipped)
 ReaderRepairs ==
   External => \A a \in Actors :
       (ac[a].pc = "done" /\ ac[a].res = "ok" /\ Role(a) = "reader") =>
-          LET v == ac[a].ver IN FinalP(v) \in DOMAIN obj /\ (v \in DOMAIN ext => ext[v] = FinalP(v))
+          LET v == ac[a].ver IN
+          /\ FinalP(v) \in DOMAIN obj
+          /\ v \in DOMAIN ext => (ext[v] = FinalP(v) \/ (IsStaging(ext[v]) /\ obj[FinalP(v)] = ext[v][3]))
 \* and a writer that returned success as well
 WriterFinalises ==
   External => \A vc \in okRet : FinalP(vc[1]) \in DOMAIN obj /\ (vc[1] \in DOMAIN ext => ext[vc[1]] = FinalP(vc[1]))
